@@ -222,7 +222,18 @@ void prop(const Case& cs) {
         if (im.st.empty) vf::label("intersection-empty");
       }
     } else if (op.name == "i_new") {
-      I.reset(new theta_intersection(seed)); im = vf::MInter(); ih.ups.clear();
+      // a new life for the stateful object: a fresh object, or the same object overwritten by move / copy assignment of a fresh one
+      // (nothing of the previous computation - theta, entries, validity - may survive the assignment)
+      const int mode = static_cast<int>(op.uarg(0) % 3);
+      if (mode == 0) I.reset(new theta_intersection(seed));
+      else if (mode == 1) { *I = theta_intersection(seed); vf::label("intersection-move-assigned-fresh"); }
+      else { theta_intersection fresh_i(seed); *I = fresh_i; vf::label("intersection-copy-assigned-fresh"); }
+      im = vf::MInter(); ih.ups.clear();
+    } else if (op.name == "u_new") {
+      const int mode = static_cast<int>(op.uarg(0) % 2);
+      if (mode == 0) { U = mk_union(); vf::label("union-move-assigned-fresh"); }
+      else { theta_union fresh_u = mk_union(); U = fresh_u; vf::label("union-copy-assigned-fresh"); }
+      uh.ups.clear();
     } else if (op.name == "anotb") {
       size_t i = op.uarg(0) % specs.size(), j = op.uarg(1) % specs.size(); bool ord = op.arg(2) & 1; bool rv = op.arg(3) & 1;
       Input a = fresh(i), b = fresh(j); note_input(a, specs[i]); note_input(b, specs[j]);
@@ -351,7 +362,7 @@ rc::Gen<Case> gen_main() {
   auto hist = choose({
       {5, op2("u_upd", range(0, 5), range(0, 1))},
       {2, op1("u_res", range(0, 1))},
-      {1, rc::gen::map(range(0, 9), [](int64_t x) { return x < 3 ? Op{"u_reset", {}} : Op{"i_new", {}}; })},
+      {2, rc::gen::map(range(0, 11), [](int64_t x) { return x < 3 ? Op{"u_reset", {}} : x < 6 ? Op{"u_new", {x}} : Op{"i_new", {x}}; })},
       {5, op2("i_upd", range(0, 5), range(0, 1))},
       {2, op1("i_res", range(0, 1))},
       {3, op4("anotb", range(0, 5), range(0, 5), range(0, 1), range(0, 1))},
